@@ -172,15 +172,18 @@ func serializeAttrs(pc *PrintCtx, kvps Attrs) (err error) { //nolint:revive
 			ct.echoColorAndBg(pc, pc.clr, pc.bg)
 		}
 
-		if !inGroupedMode {
-			_, inGroupedMode = v.(groupedValue)
+		// is this very attribute a group? (a group seen earlier in the list
+		// must not make the attributes after it lose their keys)
+		grouped := inGroupedMode
+		if !grouped {
+			_, grouped = v.(groupedValue)
 		}
 
 		key := v.Key()
-		if inGroupedMode && !pc.jsonMode && pc.valueStringer == nil {
+		if grouped && !pc.jsonMode && pc.valueStringer == nil {
 			key = strings.DotPrefix(key, prefix)
 		} else {
-			if inGroupedMode && !pc.jsonMode && pc.valueStringer == nil {
+			if grouped && !pc.jsonMode && pc.valueStringer == nil {
 				panic("impossible condition matched: inGroupedMode && !pc.jsonMode")
 				// if inGroupedMode && !pc.jsonMode {
 				// 	key = DotPrefix(key, prefix)
